@@ -226,7 +226,14 @@ pub fn install_panic_hook() {
             .map(|l| {
                 let f = l.file();
                 let base = f.rsplit('/').next().unwrap_or(f);
-                base.to_string()
+                // workspace members of the harness are compiled with relative
+                // paths; the code under test (/repo/…), the registry and std
+                // have absolute ones
+                if f.starts_with('/') {
+                    base.to_string()
+                } else {
+                    format!("HARNESS/{f}")
+                }
             })
             .unwrap_or_else(|| "?".into());
         let msg = if let Some(s) = info.payload().downcast_ref::<&str>() {
@@ -269,6 +276,12 @@ pub fn run_case(run: CaseFn, bytes: &[u8], ctx: &mut Ctx) -> CaseResult {
             let (loc, msg) = LAST_PANIC
                 .with(|p| p.borrow_mut().take())
                 .unwrap_or_else(|| ("?".into(), "?".into()));
+            if let Some(own) = loc.strip_prefix("HARNESS/") {
+                return Err(Failure {
+                    sig: format!("harness-panic:{}:{}", own.replace('/', "_"), sanitize_sig(&msg)),
+                    msg: format!("the harness itself panicked at {own}: {msg}"),
+                });
+            }
             Err(Failure {
                 sig: format!("panic:{}:{}", loc, sanitize_sig(&msg)),
                 msg: format!("panic at {loc}: {msg}"),
@@ -972,6 +985,10 @@ pub fn main(prop: Property) -> ! {
                 );
                 if let Some(r) = &rendering {
                     println!("  minimal case: {r}");
+                }
+                if ff.failure.sig.starts_with("harness-panic:") {
+                    harness_errors.push(format!("{} (replay {})", ff.failure.msg, path.display()));
+                    continue;
                 }
                 violations.push((ff.failure.sig.clone(), path));
             }
